@@ -234,7 +234,9 @@ def oracle(c, g, py_header):
                                       % (off_len, eff, maxpay), None))
                         break
             accepted.append((idx, data[:max(0, min(o['n'], want))]))
-            bad = o['end'] not in ('ok', 'eof', 'short')
+            # a frame that could not be encoded (empty payload) consumes no sequence number: what is written
+            # afterwards must still arrive, so 'obfs' does not excuse a loss
+            bad = end_class(o['end']) not in ('ok', 'eof', 'short', 'obfs')
             if bad and first_bad is None:
                 first_bad = len(accepted) - 1
         if kind == 'X' and eff >= NOTICE_MAX:
